@@ -980,5 +980,7 @@ def _reuse_tool_with_param_dict(
     """
     setup_dict = config["param_dict"].copy()
     config["param_dict"].update(param_dict)
-    tool(config, tag=tag)
-    config["param_dict"] = setup_dict
+    try:
+        tool(config, tag=tag)
+    finally:
+        config["param_dict"] = setup_dict
